@@ -239,6 +239,9 @@ def run(ctx):
 
     json_recursion(ctx, with_budget=True)
     canon_guard_semantics(ctx, scope)
+    # the zero-size-cycle search visits each record once (shared with C07): walking every path is exponential
+    from .c07 import cyclecheck
+    cyclecheck(ctx)
     name_index_rule(ctx, scope)
 
     # ---- Debug rendering is depth-limited
